@@ -810,9 +810,11 @@ def c06_cases(tier, seed):
             # commands that do not end a kill / yank run, reachable in BOTH modes only through custom bindings:
             # yank-pop, yank, Replace(EndOfLine / WholeLine, text), Kill(WholeLine), Noop
             binds = [("F5", "yankpop"), ("F6", "yank"), ("PageUp", rng.choice(["replaceeol 78", "replacewl 79.e9"])),
-                     ("PageDown", rng.choice(["killwl", "noop"]))]
-            extra = [rng.choice(["F6", "F6", "F5", "PageUp", "PageDown", "p" if mode == "vi" else "C-y", "P" if mode == "vi" else "C-y"])
+                     ("PageDown", rng.choice(["killwl", "noop"])), ("C:58,C:45", "yank0")]      # C-x C-e: Yank with count 0
+            extra = [rng.choice(["F6", "F6", "F5", "PageUp", "PageDown", "p" if mode == "vi" else "C-y", "P" if mode == "vi" else "C-y",
+                                 "C-x C-e" if mode == "emacs" else "F5"])
                      for _ in range(rng.randint(2, 8))]
+            extra = [x for k in extra for x in k.split(" ")]
             cut = [i for i, k in enumerate(keys) if k == "Enter"]
             at = cut[0] if cut else len(keys)
             for k in extra:
